@@ -90,6 +90,15 @@ def observe(ctx, data, keytap):
                 "certificate_request_none": ctx._certificate_request is None}
     o.rbuf0 = ctx._receive_buffer
     k0 = len(keytap.calls)
+    # tests that are conditional EXPRESSIONS (`_set_state(X if c else Y)`) leave no line trace: they
+    # only read attributes of the context, so they are evaluated on the context at handler entry
+    pre = {}
+    for t in R["tests"]:
+        if t.get("ifexp"):
+            try:
+                pre[t["name"]] = bool(eval(t["text"], dict(vars(tls), self=ctx, ssl=__import__("ssl"))))
+            except Exception:   # noqa
+                pre[t["name"]] = False
     _hash_log = []
     bufs = D.buffers()
     old = sys.gettrace()
@@ -132,13 +141,15 @@ def observe(ctx, data, keytap):
     o.lines = lines
 
     def truth(t):
+        if t.get("ifexp"):
+            return pre.get(t["name"], False)
         ls = lines[t["fn"]]
         body = any(t["true_lo"] <= l <= t["true_hi"] for l in ls)
         if not t.get("flipped"):
             return body
         # the named test is the NEGATION of the source test: true iff the `if` was reached and its body skipped
         return (not body) and any(t["line"] <= l < t["true_lo"] for l in ls)
-    o.tests = sorted(t["name"] for t in R["tests"] if t["fn"] in lines and truth(t))
+    o.tests = sorted({t["name"] for t in R["tests"] if t["fn"] in lines and truth(t)})
     o.fail = None
     if o.exc is not None and o.fn is not None:
         hev = [(f, l) for f, l in events if f in fns]
